@@ -31,6 +31,9 @@ impl SMap {
 
     #[verifier::external_body]
     pub fn contains_key(&self, k: &Vec<String>) -> (r: bool) ensures r == self@.contains_key(key_of(*k)) { unimplemented!() }
+    /// `HashMap::reserve`: capacity only, the contents are unchanged
+    #[verifier::external_body]
+    pub fn reserve(&mut self, additional: usize) ensures final(self)@ == old(self)@ { unimplemented!() }
 
     /// `HashMap::entry(k).or_insert(v)`: inserts only if the key is absent
     #[verifier::external_body]
@@ -60,6 +63,9 @@ impl SubstElems {
     pub uninterp spec fn pos(&self) -> int;
     #[verifier::external_body]
     pub fn into_iter(self) -> (r: SubstElems) ensures r.seq() == self.seq(), r.pos() == self.pos() { unimplemented!() }
+    /// `Iterator::size_hint`: some bounds (nothing is assumed about them)
+    #[verifier::external_body]
+    pub fn size_hint(&self) -> (usize, Option<usize>) { unimplemented!() }
     #[verifier::external_body]
     pub fn next(&mut self) -> (r: Option<(SynPath, AbsolutePath)>)
         ensures
